@@ -210,6 +210,21 @@ def oracle_ds(ds, sw, desc, requested=None):
     return None
 
 
+def oracle_calls(log, sw, desc):
+    """every call of the function got, besides its swept arguments, exactly the constants in force and the resources"""
+    fa = sweeps.fn_args(sw)
+
+    def logform(v): return v if isinstance(v, (int, float, str, bool, type(None))) else repr(v)      # as fns.Rec logs it
+    want = {k: logform(v) for k, v in {**desc['resources'], **desc['constants']}.items()}
+    for r in desc['resources']:
+        if r in desc['constants']: want.pop(r)          # one name given as both: the statement does not say which wins
+    for kw in log:
+        got = {k: v for k, v in kw.items() if k not in fa and not (k in desc['resources'] and k in desc['constants'])}
+        if got != want:
+            return f'the function was called with constants/resources {got}, those in force for this run are {want}'
+    return None
+
+
 def oracle_df_rows(rows, sw, desc):
     """each row's outputs are the function's value at that row's own arguments; constants/attrs carried, resources not"""
     kind = kind_of(desc); sz = sweeps.sizes(sw); k = len(desc['names'])
@@ -226,7 +241,7 @@ def oracle_df_rows(rows, sw, desc):
         for r in desc['resources']:
             if r in row: return f'resource {r} recorded in the row'
         for c, val in list(desc['constants'].items()) + list(desc['attrs'].items()):
-            if row.get(c) != canon(val): return f'constant/attribute {c} not in the row'
+            if row.get(c) != canon(val): return f'constant/attribute {c} is {row.get(c, "<absent>")!r} in the row, the value in force for this run is {canon(val)!r}'
     return None
 
 
@@ -248,6 +263,6 @@ def oracle_df(rows, sw, desc, n_expected):
         for r in desc['resources']:
             if r in row: return f'resource {r} recorded in the row'
         for c, val in list(desc['constants'].items()) + list(desc['attrs'].items()):
-            if row.get(c) != canon(val): return f'constant/attribute {c} not in the row'
+            if row.get(c) != canon(val): return f'constant/attribute {c} is {row.get(c, "<absent>")!r} in the row, the value in force for this run is {canon(val)!r}'
     if len(seen) != n_expected: return 'rows do not cover each evaluated setting exactly once'
     return None
